@@ -4,6 +4,37 @@ import json, os, subprocess
 V = os.path.dirname(os.path.dirname(os.path.abspath(__file__)))
 
 CLAIMED = {
+ 'C03': dict(
+    text='Theorems over a list-level model of EVERY primitive that edits a segment (append, INSERT, DELETE, PUT_COPY, TEMP_COPY, free, attach/detach, '
+         'ASSOC, reverseSlots, associateChars, linkClusters): for arbitrary operation sequences - whatever rules, bytecode and text produce them - the '
+         'stream never contains a slot twice, and reversal keeps exactly the same slots.  The tie is trace refinement: GRAPHITE2_VERIF hooks make the '
+         'real library emit its operation trace; the extracted model replays it and must agree with a snapshot of the real pointer structure (walked '
+         'and consistency-checked by the harness) after every pass and at the end - on texts over all 16 shipped fonts and on thousands of adversarial '
+         'accepted action programs run by the real loader and interpreter.  The property\'s clauses are also evaluated directly on the API output.',
+    note='PARTIAL: index permutation, finiteness and the gid clause are not proved (model-computed indices are compared; oracle checks the rest). The '
+         'model is list-level: that pointer manipulations implement the list operations is checked on snapshots, not proved. Trusted: Coq kernel; hooks '
+         '(add-only) + harness abstraction function; extraction + driver; ASan/UBSan.',
+    technique='Coq proof (invariant preserved by every primitive, lifted over arbitrary op sequences) + trace-refinement correspondence via source hooks + structural oracle',
+    design='6/C03'),
+ 'C04': dict(
+    text='Same model and trace-refinement tie as C03, extended with parents and child chains: do_attach mirrors the count<100 / foundOther decision and the '
+         'decision itself is compared with the implementation\'s; PUT_COPY / TEMP_COPY / freeSlot / detach mirror Slot::child, sibling, removeChild.  '
+         'Proved so far: attachment operations never disturb the stream invariant.  The forest clauses (acyclic parents, child chains consistent, single '
+         'base chain) are evaluated on the API output of every case and through snapshot agreement, including adversarial mutually-attaching programs.',
+    note='PARTIAL: acyclicity / child-chain consistency not yet proved in Coq (argument: foundOther + PUT_COPY precondition).  One genuine defect is '
+         'recorded as a known finding (ghost slot after DELETE of a temp-copied attached slot).',
+    technique='Coq proof (partial) over list-level model + trace-refinement correspondence via source hooks + forest oracle on API output',
+    design='6/C04'),
+ 'C05': dict(
+    text='Theorem: for a segment of n > 0 characters, after ANY sequence of primitive operations every slot\'s before / after / original lie in [0, n) '
+         '(ASSOC with arbitrary references, insertion at either end, copies, associateChars extension included); char-infos of canonical text are the '
+         'characters with their code-unit offsets (from the text-reading model).  The char-info clause (before/after are slot indices) is REFUTED in the '
+         'model by a vm_compute witness (delete without ASSOC); no shipped font produces that sequence.  Tie and oracle as C03; the model computes '
+         'associateChars (char-info before/after and slot range extension) and the results are compared with the implementation on every case.',
+    note='PARTIAL: coverage of every character by some slot range is not proved (compared + oracle).  The refuted clause awaits a synthesised font to '
+         'replay it on the implementation (DESIGN.md section 7, F10).',
+    technique='Coq proof (range invariant over all op sequences; refutation witness) + trace-refinement correspondence + oracle',
+    design='6/C05'),
  'C07': dict(
     text='Theorems over a model of the bytecode loader (decoder with its stack-depth analysis) and the interpreter loop for opcodes 0x00-0x18, '
          '0x30-0x32, 0x3E-0x41: (1) for EVERY expression tree with 32-bit constants that fits the stack, the loader accepts its postfix bytecode '
